@@ -19,11 +19,11 @@ type cgStep struct {
 }
 
 type cgOpts struct {
-	FollowGo   bool                                  // also follow `go` sites (default: synchronous edges only)
-	ModuleOnly bool                                  // do not descend into functions outside the module
-	SkipEdge   func(e *callgraph.Edge) bool          // edges not to follow
-	SkipFunc   func(fn *ssa.Function) bool           // functions not to enter
-	MaxDepth   int                                   // 0 = unbounded
+	FollowGo   bool                         // also follow `go` sites (default: synchronous edges only)
+	ModuleOnly bool                         // do not descend into functions outside the module
+	SkipEdge   func(e *callgraph.Edge) bool // edges not to follow
+	SkipFunc   func(fn *ssa.Function) bool  // functions not to enter
+	MaxDepth   int                          // 0 = unbounded
 }
 
 func (p *Program) closure(roots []*ssa.Function, o cgOpts) map[*ssa.Function]*cgStep {
